@@ -1198,11 +1198,13 @@ class Atoms:
         new types will be added, but the newly added atoms, bonds, etc will refer to types by their
         value in the other Atoms object plus the offset. Use this when you are adding the same set
         of atoms multiple times, or if your other atoms already share the same type ids as this
-        object. For the later case, the tuple (0,0,0,0) may be passed in.
+        object. For the later case, the tuple (0,0,0,0,0) may be passed in (a four-entry tuple from before impropers
+        had their own offset is read as having an improper offset of 0).
 
         Args:
             other (Atoms): atoms to add to self
-            offsets: an offsets tuple with the results of calling extend_types().
+            offsets: an offsets tuple with the results of calling extend_types(): the offsets of the atom, bond,
+                angle, dihedral and improper type ids.
             structure_index_map: dictionary where key is an index in other and value is an index in
                 self, where entries only exist if the position and element of the entries are
                 identical and can be considered to be the same atom.
@@ -1213,6 +1215,8 @@ class Atoms:
             if verbose:
                 print("auto offset: extending types")
             offsets = self.extend_types(other)
+        else:
+            offsets = tuple(offsets) + (0,) * (5 - len(offsets))
 
         xf_atoms, xf_bonds, xf_angles, xf_dihedrals, xf_impropers = self._extend_extra_fields(other)
 
